@@ -375,3 +375,30 @@ def mk_ts(y, m, d, H=12, M=43, S=0, us=0):
 
 def tmpdir():
     return tempfile.mkdtemp(prefix="qa_verif_")
+
+
+class WrapScorer(Scorer):
+    """Delegates to a real scorer and records the partial parses it was asked to score."""
+
+    def __init__(self, inner):
+        self.inner = inner
+        self.init_pps = []
+        self.started = False
+        self.nscore = 0
+        self.nfinal = 0
+        self.scores = []
+
+    def score(self, txt, ts, pp):
+        self.nscore += 1
+        if not self.started and len(pp.rules) == len(pp.prod) and all(isinstance(x, T.RegexMatch) for x in pp.prod):
+            self.init_pps.append(pp)
+        sc = self.inner.score(txt, ts, pp)
+        self.scores.append(sc)
+        return sc
+
+    def score_final(self, txt, ts, pp, prod):
+        self.started = True
+        self.nfinal += 1
+        sc = self.inner.score_final(txt, ts, pp, prod)
+        self.scores.append(sc)
+        return sc
